@@ -220,6 +220,6 @@ theorem sqlkeys_prefix_filter_leaks :
     listTrialsBy prefixSel leakDb ("o", "s") = .ok [leakTrial 0, leakTrial 7] ∧
     leakDb.listTrials ("o", "s") = .ok [leakTrial 0] ∧
     (("o", "s1"), leakTrial 7) ∈ leakDb.trials ∧ (("o", "s"), leakTrial 7) ∉ leakDb.trials := by
-  refine ⟨by decide +kernel, by decide +kernel, by decide +kernel, by decide +kernel⟩
+  refine ⟨by rfl, by rfl, by decide +kernel, by decide +kernel⟩
 
 end VizierModel.SqlKeys
